@@ -120,7 +120,9 @@ def run(ctx):
         detail, _, case = d.partition("; case ")
         ctx.violation("c14-" + kind, "acmelib breaks C14 (%s): %s" % (kind, detail),
                       {"case": case, "detail": detail, "how": "./check C14 --replay <this file>"})
-    if mism != 0 and not summ["propfail"]:
+    known = {k["signature"] for k in ctx.known_open}
+    new_propfail = [k for k in summ["propfail"] if "c14-" + k not in known]
+    if mism != 0 and not new_propfail:
         # model and implementation disagree although every property formula the harness evaluates
         # holds (this can only concern shapes the property does not constrain, e.g. unvalidated
         # from/len passed to Use*): the theorems no longer describe this code
@@ -146,7 +148,10 @@ def run(ctx):
                 "32-bit word) x boundary/random 32-bit triples; the same shapes through Use*; every pair of boundary ints as "
                 "unvalidated (from, len) through Use*; all boundary combinations of (from, len, index) for InsertOperation and "
                 "RemoveOperation on builders of 0/1/3 operations; builders ending in UseCAN2A; seeded random edit histories with "
-                "lists of at most 8 operations; message/node/bus/builder-pool histories visiting every attachment state. "
+                "lists of at most 8 operations; message/node/bus/builder-pool histories visiting every attachment state through every "
+                "detach path of the public API, with builders made by InsertOperation, shared by two buses and replaced mid-history; "
+                "at the end of each history whose final state is expressible the network is saved (wire) and loaded and GetCANID of "
+                "every message is compared with the original (and, for the observed message, with the model). "
                 "non-trivial = distinct case in which, for a B case, some operation changed the running value on some triple with "
                 "all operations legal, or, for a W case, at least two attachment states were seen and the bus builder was applied",
         "distribution": summ["hist"],
